@@ -1867,7 +1867,7 @@ func c18HintedBranchesVisited(ctx *Ctx, r *Report) {
 			found := false
 			ast.Inspect(fd.Body, func(m ast.Node) bool {
 				if id, ok := m.(*ast.Ident); ok {
-					if c, ok := info.Uses[id].(*types.Const); ok && c.Name() == "HintDiscriminatedDisjunctionOfRefs" {
+					if namesRefsHint(ctx, info.Uses[id]) {
 						found = true
 					}
 				}
